@@ -800,7 +800,15 @@ func RewriteBiased(conf Conf) *rapid.Generator[Prog] {
 			}
 		case 4, 5:
 			c.feat("rw/const-path")
-			core = pick(t, "path", rwPaths) + " " + pick(t, "asg", []string{"=", "=", "=", "|=", "+=", "//="}) + " " + pick(t, "rhs", rwRHS)
+			upd := func() string {
+				return pick(t, "path", rwPaths) + " " + pick(t, "asg", []string{"=", "=", "=", "|=", "+=", "//="}) + " " + pick(t, "rhs", rwRHS)
+			}
+			core = upd()
+			// several updates at one scope depth (unparenthesised pipe), with
+			// and without a navigation step in between
+			for n := rapid.IntRange(0, 3).Draw(t, "chain"); n > 1; n-- {
+				core += pick(t, "link", []string{" | ", " | ", " | .a | ", " | .[0]? | ", " | [.] | "}) + upd()
+			}
 		case 6, 7:
 			c.feat("rw/if")
 			switch rapid.IntRange(0, 4).Draw(t, "ifkind") {
